@@ -24,6 +24,7 @@ pub struct Shared {
     /// task ids chosen in the current execution
     pub current: Vec<usize>,
     pub executions: usize,
+    pub capped: bool,
     pub max_points: usize,
     pub total_points: usize,
     pub preempting_executions: usize,
@@ -32,6 +33,8 @@ pub struct Shared {
 pub struct PbDfs {
     bound: usize,
     max_executions: usize,
+    /// wall-clock cap for this exploration (a capped exploration is reported as not complete)
+    pub deadline: Option<std::time::Instant>,
     levels: Vec<Level>,
     step: usize,
     started: bool,
@@ -46,6 +49,7 @@ impl PbDfs {
             PbDfs {
                 bound,
                 max_executions,
+                deadline: None,
                 levels: vec![],
                 step: 0,
                 started: false,
@@ -111,8 +115,9 @@ impl Scheduler for PbDfs {
         }
         {
             let mut sh = self.shared.lock().unwrap();
-            if sh.executions >= self.max_executions {
+            if sh.executions >= self.max_executions || self.deadline.is_some_and(|d| std::time::Instant::now() > d) {
                 self.done = true;
+                sh.capped = true;
                 return None;
             }
             sh.executions += 1;
